@@ -8,13 +8,13 @@ CONSTANTS
     Ctxs = {"rt", "nort"}
     DamageKinds = {"manifest", "wal"}
     None = "none"
-    FixCloneDrop = FALSE
-    FixLeak = FALSE
+    FixCloneDrop = TRUE
+    FixLeak = TRUE
     MaxSteps = 100
     MaxDies = 100
 INIT MCInit
 NEXT MCNext
 CONSTRAINT Bound
 VIEW View
-INVARIANTS TypeOK HolderIsSomebody LockedImpliesHolder OneLive LiveHoldsLock OnlyHolderTouches ReopenAfterRelease
+INVARIANTS TypeOK HolderIsSomebody LockedImpliesHolder OneLiveStrict LiveHoldsLockStrict OnlyHolderTouches ReopenAfterReleaseStrict
 CHECK_DEADLOCK FALSE
